@@ -469,6 +469,39 @@ def check_framing(ctx, repo):
     if b is None or nows(b) != exp:
         ctx.notes.append('unrecognised: io.rs read_i16_or_eof differs from the text the model was written against')
 
+STRING_LIST_EXPECT = [
+ ('src/formats/ecl/ecl_10.rs', 'write_string_list', r"fn\s+write_string_list<'a>\s*\([^{]*?\)\s*->\s*ReadResult<\(\)>\s*",
+  'letmutnum_bytes_written=0;forstringinstrings{letencoded=Encoded::encode(&string,DEFAULT_ENCODING).map_err(|e|emitter.emit(e))?;writer.write_cstring(&encoded,1)?;num_bytes_written+=encoded.len()+1;}writer.align_to(num_bytes_written,4)?;Ok(())'),
+ ('src/formats/ecl/ecl_10.rs', 'read_string_list', r'fn\s+read_string_list\s*\([^{]*?\)\s*->\s*ReadResult<Vec<Sp<String>>>\s*',
+  'letmutnum_bytes_read=0;letstrings=(0..count).map(|_|{letencoded=reader.read_cstring_blockwise(1)?;num_bytes_read+=encoded.len()+1;letstring=encoded.decode(DEFAULT_ENCODING).map_err(|e|emitter.emit(e))?;Ok(sp!(string))}).collect::<Result<Vec<_>,_>>()?;letpadding=reader.align_to(num_bytes_read,4)?;ifpadding.into_iter().any(|b|b!=0){emitter.emit(warning!("unexpecteddatainpaddingafterlaststring")).ignore();}Ok(strings)'),
+ ('src/io.rs', 'write_cstring', r'fn\s+write_cstring\s*\([^{]*?\)\s*->\s*Result<\(\),\s*Self::Err>\s*',
+  'letmutto_write=s.clone();to_write.null_pad(block_size);BinWrite::write_all(self,&to_write.0)'),
+ ('src/io.rs', 'null_pad', r'pub\s+fn\s+null_pad\s*\(&mut self,\s*block_size:\s*usize\)\s*',
+  'letmin_size=self.0.len()+1;letfinal_len=matchmin_size%block_size{0=>min_size,r=>min_size+block_size-r,};self.0.resize(final_len,0);'),
+ ('src/io.rs', 'read_cstring_blockwise', r'fn\s+read_cstring_blockwise\s*\([^{]*?\)\s*->\s*Result<Encoded,\s*Self::Err>\s*',
+  'assert_ne!(block_size,0);letmutout=vec![];whileout.last()!=Some(&0){letold_end=out.len();out.resize(old_end+block_size,0);self.read_exact(&mutout[old_end..])?;}whileout.last()==Some(&0){out.pop();}Ok(Encoded(out))'),
+]
+ALIGN_EXPECT = ['assert_ne!(block_size,0);matchcount_already_read%block_size{0=>Ok(vec![]),r=>self.read_byte_vec(block_size-r),}',
+                'assert_ne!(block_size,0);matchcount_already_written%block_size{0=>Ok(()),r=>self.write_all(&vec![0u8;block_size-r]),}']
+
+def check_string_lists(ctx, repo):
+    """the string-list functions that Model.Container.write_string_list / read_string_list restate"""
+    cache = {}
+    for path, name, pat, exp in STRING_LIST_EXPECT:
+        if path not in cache:
+            try: cache[path] = strip_comments(open(repo + '/' + path).read())
+            except OSError: cache[path] = ''
+        b, _ = block_after(cache[path], pat)
+        if b is None or nows(b) != exp:
+            ctx.notes.append('unrecognised: %s %s differs from the text the model was written against' % (path, name))
+    io = cache.get('src/io.rs', '')
+    found = []
+    for m in re.finditer(r'fn\s+align_to\s*\([^{]*?\)\s*->\s*Result<[^{]*>\s*', io):
+        b, _ = block_after(io, r'fn\s+align_to\s*\([^{]*?\)\s*->\s*Result<[^{]*>\s*', m.start())
+        found.append(nows(b) if b else None)
+    if found != ALIGN_EXPECT:
+        ctx.notes.append('unrecognised: src/io.rs align_to (reader/writer) differs from the text the model was written against')
+
 # ---------------------------------------------------------------------------------------------
 
 def coq_instr(d):
@@ -481,6 +514,7 @@ def unrec_fmt(name):
 def main(repo, out):
     ctx = Ctx(repo)
     check_framing(ctx, repo)
+    check_string_lists(ctx, repo)
     text = '(* GENERATED by gen/instrheader.py from src/formats, src/llir/mod.rs, src/raw.rs -- do not edit *)\n'
     text += 'From TV Require Import Base.I32 Model.Container.\nOpen Scope Z_scope.\n'
     text += 'Definition gen_default : instr := %s.\n' % coq_instr(ctx.defaults)
